@@ -120,6 +120,15 @@ func (sc *SpecCtx) eval(x *Sx) specVal {
 	switch h {
 	case "old":
 		return sc.inOld().eval(args[0])
+	case "at":
+		// (at <snapshot label> e): e evaluated in the state named by a snapshot clause
+		if st, ok := t.snapshots[args[0].Atom]; ok {
+			n := *sc
+			n.st = st
+			return n.eval(args[1])
+		}
+		t.errorf("spec: unknown snapshot %s", args[0].Atom)
+		return specVal{"false", nil}
 	case "bv":
 		var n int64
 		fmt.Sscanf(args[0].Atom, "%d", &n)
